@@ -35,10 +35,12 @@ Theorem C05_start_required : forall fuel vars stmts,
   find_start vars = None -> typecheck fuel (mkResolved vars stmts) <> Ok tt.
 Proof. exact Shapes.start_required. Qed.
 
-(* ... and so it does when the class of `start` has a head that is not a function of no arguments *)
+(* ... and so it does when the class of `start` has a head that is not a function of no arguments (since /repo 3c0758d
+   solve goes through the type declarations once before all the statements: the hypothesis is about the pass over all
+   the statements, from whatever well-formed state the first pass left) *)
 Theorem C05_start_wrong_type : forall kinds g R stmts v s,
   wf s -> apres R ->
-  (forall u s', iterM (fun st => outer_statement kinds (gfix g) R st ctx_new) stmts s = Ok (u, s') ->
+  (forall s0 u s', wf s0 -> iterM (fun st => outer_statement kinds (gfix g) R st ctx_new) stmts s0 = Ok (u, s') ->
                 forall t, var_ty kinds (v_id v) s' = Ok (t, s') ->
                 exists h, head s' t = Some h /\ is_unknown h = false /\ same_shape h (HFn [] 1%positive PUndefined) = false) ->
   notok (solve kinds (gfix g) R stmts (Some v) s).
